@@ -228,6 +228,7 @@ type layerObs struct {
 	pre, in, post, after snapshot
 	end                  bool
 	closing, closed      bool
+	pcallPost            bool
 	closingAfterLeaf     bool
 }
 
@@ -355,6 +356,8 @@ func (sw *sweeper) run(L uint64, n int) runObs {
 			l.after = parseSnap(e.args[2:])
 		case "end":
 			l.end = true
+		case "pcallpost":
+			l.pcallPost = true
 		case "closing":
 			l.closing = true
 			if ro.leafPos >= 0 {
@@ -393,11 +396,23 @@ func checkRun(p program, L uint64, ro runObs) (vs []bviol) {
 	if ro.obs.UsedCPU > L {
 		add("outer-used>kill", "outermost context reports used.cpu=%d with kill.cpu=%d", ro.obs.UsedCPU, L)
 	}
-	// innermost context layer around the leaf (0 = the host's outermost context)
+	// innermost context layer around the leaf (0 = the host's outermost context):
+	// where an error is caught and where a stop request lands
 	nearest := 0
 	for i := n; i >= 1; i-- {
 		if isCtxKind(wrappers[p.nest[i-1]].kind) {
 			nearest = i
+			break
+		}
+	}
+	// innermost callcontext layer around the leaf: where a kill lands.  The
+	// implicit context of pcall has no limits of its own and is no boundary for
+	// a termination: it is passed on to the enclosing context (88c54d3; C05
+	// "pcall cannot intercept the termination").
+	nearestCC := 0
+	for i := n; i >= 1; i-- {
+		if wrappers[p.nest[i-1]].kind == "cc" {
+			nearestCC = i
 			break
 		}
 	}
@@ -415,18 +430,16 @@ func checkRun(p program, L uint64, ro runObs) (vs []bviol) {
 		l := ro.layers[i]
 		if w.kind == "close" && leaf == "killnow" && leafRan && l.closingAfterLeaf {
 			// quotas.md/CallContext: a terminated context does not finalize pending to-be-closed values
-			inKilled := true
-			for j := i + 1; j <= n; j++ {
-				if isCtxKind(wrappers[p.nest[j-1]].kind) {
-					inKilled = false // the kill hit a context nested inside this layer
-				}
-			}
+			inKilled := i > nearestCC // no callcontext between this layer and the leaf stops the kill
 			if inKilled {
 				add("ran-after-kill", "layer %d: the __close handler ran after its context was terminated by killnow", i)
 			}
 		}
 		if !isCtxKind(w.kind) {
 			continue
+		}
+		if w.kind == "pcall" && leaf == "killnow" && leafRan && i > nearestCC && l.pcallPost {
+			add("pcall-intercepted-kill", "layer %d: pcall returned although killnow terminated the context it runs in", i)
 		}
 		pre, in, post := l.pre, l.in, l.post
 		lay := fmt.Sprintf("layer %d (%s)", i, w.name)
@@ -532,9 +545,9 @@ func checkRun(p program, L uint64, ro runObs) (vs []bviol) {
 		}
 		// status
 		errHere, killHere, stopHere := false, false, false
+		killHere = leafRan && nearestCC == i && leaf == "killnow"
 		if leafRan && nearest == i {
 			errHere = leaf == "error"
-			killHere = leaf == "killnow"
 			stopHere = leaf == "stopnow" && len(ro.stopped) == 3 // witnessed after c:stopnow() returned
 		}
 		justified := killHere ||
